@@ -175,11 +175,13 @@ ListOtherOK(pre, op, other) ==
     [] OTHER -> TRUE
 
 ListObsOK(s, obs) ==
-  /\ obs.items = s
-  /\ obs.ritems = Rev(s)
+  /\ obs.items = s               \* begin() .. end()
+  /\ obs.ritems = Rev(s)         \* rbegin() .. rend()
   /\ obs.size = Len(s)
   /\ obs.empty = (s = <<>>)
   /\ (Len(s) > 0 => obs.front = s[1] /\ obs.back = s[Len(s)])
+(* element objects alive = elements held (temporaries are gone), no object-lifetime error *)
+LifeOK(n, live, bad) == live = n /\ bad = 0
 
 (* ============================== deque ========================================================= *)
 DeqApply(s, op) ==
